@@ -313,7 +313,7 @@ where
     // it after this part of the stack is destroyed/overwritten/whatever.
 
     let map_ptr = unsafe {
-        mmap(
+        match mmap(
             None,
             NonZeroUsize::new_unchecked(size),
             MemoryProtection::PROT_READ | MemoryProtection::PROT_WRITE,
@@ -321,7 +321,15 @@ where
             MapAdditionalFlags::MAP_ANONYMOUS,
             None,
             0,
-        )?
+        ) {
+            Ok(map_ptr) => map_ptr,
+            Err(e) => {
+                // No thread will run the closure or use the shared memory, release both
+                drop_fn(fn_caller);
+                tsm.dealloc();
+                return Err(e.into());
+            }
+        }
     };
     // Stack grows downward
     let mut stack = map_ptr + size;
